@@ -249,8 +249,11 @@ class TdmsSegment(object):
             total_data_size, f.tell(), self.num_chunks)
 
         data_objects = [o for o in self.ordered_objects if o.has_data]
-        for chunk in self._read_data_chunks(f, data_objects, self.num_chunks):
+        chunk_size = self._get_chunk_size()
+        for i, chunk in enumerate(self._read_data_chunks(f, data_objects, self.num_chunks)):
             yield chunk
+            # Other reads may have moved the file position while this generator was suspended
+            f.seek(self.data_position + (i + 1) * chunk_size)
 
     def read_raw_data_for_channel(self, f, channel_path, chunk_offset=0, num_chunks=None):
         """Read raw data from a TDMS segment
